@@ -24,7 +24,18 @@ use domain::rdata::{Aaaa, Cname, Mx, Ns, Soa, Txt, ZoneRecordData, A};
 use domain::zonetree::types::ZoneUpdate;
 use domain::zonetree::update::ZoneUpdater;
 use domain::zonetree::{InMemoryZoneDiff, Rrset, SharedRrset, StoredName, Zone, ZoneBuilder};
+use domain::base::{Record, ToName};
+use domain::net::server::message::{NonUdpTransportContext, Request, TransportSpecificContext};
+use domain::net::server::middleware::xfr::{XfrData, XfrDataProvider, XfrDataProviderError, XfrMiddlewareSvc};
+use domain::net::server::service::{Service, ServiceResult};
+use domain::base::message_builder::AdditionalBuilder;
+use domain::rdata::tsig::Time48;
+use domain::tsig::{Algorithm, ClientSequence, Key, KeyName, ServerSequence};
 use dv_harness::*;
+use futures_util::StreamExt;
+use std::future::{ready, Future, Ready};
+use std::ops::ControlFlow;
+use std::pin::Pin;
 use std::collections::{BTreeMap, BTreeSet, HashMap};
 use std::str::FromStr;
 use std::sync::{Arc, Mutex};
@@ -92,7 +103,7 @@ impl Uni {
     fn kdt(&self, a: AR, ttl: u32) -> Option<String> {
         match a {
             AR::Soa(id) if id != 999_999 => Some(format!("0.{}.{}", id, ttl)),
-            AR::Other(k) if k != 9999 => {
+            AR::Other(k) if k != 9999 && k < 1000 => {
                 let (o, _, d) = &self.recs[(k % 100) as usize];
                 let kk = self.rrkey[&(o.to_string().to_ascii_lowercase(), d.rtype().to_string())];
                 Some(format!("{}.{}.{}", kk, k % 100, ttl))
@@ -124,6 +135,10 @@ impl Uni {
     fn concrete(&self, a: AR) -> (StoredName, Ttl, Data) {
         match a {
             AR::Soa(id) => (self.apex.clone(), Ttl::from_secs(3600), self.soa(id)),
+            AR::Other(k) if k >= 1000 => {
+                let txt: String = format!("bulk record {:05} ", k).repeat(11);
+                (nm(&format!("bulk-{}.example.test.", k)), Ttl::from_secs(42), ZoneRecordData::Txt(Txt::build_from_slice(txt.as_bytes()).unwrap()))
+            }
             AR::Other(k) if k >= 100 => { let (o, t, d) = self.recs[(k - 100) as usize].clone(); (o, Ttl::from_secs(t.as_secs() + 1000), d) }
             AR::Other(k) => self.recs[k as usize].clone(),
         }
@@ -132,6 +147,9 @@ impl Uni {
         if let Some((serial, min)) = soa {
             if min >= 300 && min <= 301 && serial < (1 << 30) { return AR::Soa((serial << 1) | (min - 300)); }
             return AR::Soa(999_999);
+        }
+        if let Some(rest) = owner.to_ascii_lowercase().strip_prefix("bulk-") {
+            if let Some(n) = rest.split('.').next().and_then(|x| x.parse::<u32>().ok()) { if rtype == Rtype::TXT { return AR::Other(n); } }
         }
         match self.index.get(&key(owner, rtype, data_str)) { Some(k) => AR::Other(*k), None => AR::Other(9999) }
     }
@@ -219,13 +237,17 @@ fn upd_str(uni: &Uni, u: &ZoneUpdate<ParsedRecord>) -> String {
 
 struct Run { upds: Vec<(usize, String, ZoneUpdate<ParsedRecord>)>, st: St, err_msg: Option<usize> }
 
-fn run_interp(uni: &Uni, wire: &[Vec<u8>]) -> Run {
+fn run_interp(uni: &Uni, wire: &[Vec<u8>]) -> Run { run_interp_with(uni, wire, &mut |_, w| Some(w)) }
+
+/// `pre` sees every message first (TSIG validation); None = refused, reported as Err20
+fn run_interp_with(uni: &Uni, wire: &[Vec<u8>], pre: &mut dyn FnMut(usize, Vec<u8>) -> Option<Vec<u8>>) -> Run {
     let mut upds = vec![];
     let mut err_msg = None;
     let r = catch_mut(|| {
         let mut interp = XfrResponseInterpreter::new();
         for (i, w) in wire.iter().enumerate() {
-            let msg = match Message::from_octets(Bytes::from(w.clone())) { Ok(m) => m, Err(_) => { err_msg = Some(i); return St::Err(4); } };
+            let Some(w) = pre(i, w.clone()) else { err_msg = Some(i); return St::Err(20); };
+            let msg = match Message::from_octets(Bytes::from(w)) { Ok(m) => m, Err(_) => { err_msg = Some(i); return St::Err(4); } };
             match interp.interpret_response(msg) {
                 Err(e) => {
                     err_msg = Some(i);
@@ -375,7 +397,7 @@ fn apply_updates(uni: &Uni, rt: &tokio::runtime::Runtime, zone: &Zone, upds: &[(
                 let res = up.apply(u.clone()).await;
                 match res {
                     Err(domain::zonetree::update::Error::Finished) => return "Err3".to_string(),
-                    Err(e) => return format!("ErrX:{}", e),
+                    Err(e) => { let t = e.to_string(); return if t == "SoaMismatch" { "Err5".to_string() } else { format!("ErrX:{}", t) }; }
                     Ok(d) => {
                         if commit { diff_txts.push(uni.diff_txt(&d)); }
                         let (now, _) = walk_zone(uni, zone);
@@ -553,7 +575,7 @@ fn package(r: &mut Rng, qtype: u16, chunks: Vec<Vec<AR>>) -> Vec<AMsg> {
     chunks.into_iter().enumerate().map(|(i, c)| AMsg::good(i == 0, r.chance(1, 2), qtype, c)).collect()
 }
 
-struct Ctx<'a> { fails: BTreeMap<String, u64>, uni: &'a Uni, rt: &'a tokio::runtime::Runtime, out: &'a mut Out, ttl_kind: bool, lone_soa: u64, undetected: BTreeMap<String, u64>, diffs: u64 }
+struct Ctx<'a> { sender_msgs: u64, sender_multi: u64, fails: BTreeMap<String, u64>, uni: &'a Uni, rt: &'a tokio::runtime::Runtime, out: &'a mut Out, ttl_kind: bool, lone_soa: u64, undetected: BTreeMap<String, u64>, diffs: u64 }
 
 impl<'a> Ctx<'a> {
     /// like Out::check, but writes at most 12 failures per class (the rest is counted in stats)
@@ -700,6 +722,208 @@ fn abort_case(cx: &mut Ctx, r: &mut Rng, chain: &[Version], other: Option<&Versi
     }
 }
 
+// ---------------------------------------------------------------- sender side (XFR middleware)
+
+#[derive(Clone)]
+struct NextSvc;
+impl Service<Vec<u8>, ()> for NextSvc {
+    type Target = Vec<u8>;
+    type Stream = futures_util::stream::Once<Ready<ServiceResult<Self::Target>>>;
+    type Future = Ready<Self::Stream>;
+    fn call(&self, _request: Request<Vec<u8>, ()>) -> Self::Future { unreachable!("XFR requests never reach the next service") }
+}
+
+#[derive(Clone)]
+struct Provider { zone: Zone, diffs: Vec<Arc<InMemoryZoneDiff>>, compat: bool }
+impl XfrDataProvider<()> for Provider {
+    type Diff = Arc<InMemoryZoneDiff>;
+    fn request<Octs>(&self, req: &Request<Octs, ()>, diff_from: Option<Serial>)
+        -> Pin<Box<dyn Future<Output = Result<XfrData<Self::Diff>, XfrDataProviderError>> + Sync + Send>>
+    where Octs: domain::dep::octseq::Octets + Send + Sync {
+        let res = req.message().sole_question().map_err(XfrDataProviderError::ParseError).and_then(|q| {
+            if q.qname() == self.zone.apex_name() {
+                let diffs = if self.diffs.first().map(|d| d.start_serial) == diff_from { self.diffs.clone() } else { vec![] };
+                Ok(XfrData::new(self.zone.clone(), diffs, self.compat))
+            } else { Err(XfrDataProviderError::UnknownZone) }
+        });
+        Box::pin(ready(res))
+    }
+}
+
+fn stored(uni: &Uni, a: AR) -> Record<StoredName, Data> { let (o, t, d) = uni.concrete(a); Record::new(o, Class::IN, t, d) }
+
+/// header word + items of a real message, for the `x` T2 kind
+fn words_of_wire(uni: &Uni, w: &[u8]) -> Option<String> {
+    let msg = Message::from_octets(Bytes::from(w.to_vec())).ok()?;
+    let h = msg.header(); let c = msg.header_counts();
+    let qt = msg.qtype().map(|q| q.to_int().to_string()).unwrap_or("n".into());
+    let mut items = vec![];
+    for r in msg.answer().ok()?.limit_to::<ZoneRecordData<Bytes, domain::base::ParsedName<Bytes>>>() {
+        match r { Ok(r) => items.push(ar_str(uni.abs_parsed(&r))), Err(_) => { items.push("B".into()); break; } }
+    }
+    Some(format!("{}:{}:{}:{}:{}:{}:{}:{} {}", h.qr() as u8, h.opcode().to_int(), h.rcode().to_int(), h.tc() as u8,
+        c.qdcount(), c.ancount(), c.nscount(), qt, if items.is_empty() { "-".to_string() } else { items.join(".") }))
+}
+
+/// The sender is a real zone taken through `chain` with ZoneUpdater (so the diffs are the ones
+/// the zone reports), served by XfrMiddlewareSvc; the receiver applies the response stream.
+/// mode 0 = AXFR, 1 = IXFR with diffs, 2 = IXFR without diffs (AXFR-style fallback).
+fn sender_case(cx: &mut Ctx, chain: &[Version], mode: u8, compat: bool, recv_start: &Version) {
+    let uni = cx.uni;
+    let new = chain.last().unwrap().clone();
+    let label = format!("sender:{}{}", ["axfr", "ixfr", "fallback"][mode as usize], if compat { ":compat" } else { "" });
+    let case0 = format!("{} chain={:?} new={}", label, chain.iter().map(|v| v.soa).collect::<Vec<_>>(), new.soa);
+    cx.out.begin(&case0);
+    let szone = build_zone(uni, Some(chain[0].soa), &chain[0].keys);
+    let rt = cx.rt;
+    let built = catch_mut(|| rt.block_on(async {
+        let mut diffs = vec![];
+        for w in chain.windows(2) {
+            let mut up: ZoneUpdater<StoredName> = ZoneUpdater::new(szone.clone()).await.map_err(|e| e.to_string())?;
+            up.apply(ZoneUpdate::BeginBatchDelete(stored(uni, AR::Soa(w[0].soa)))).await.map_err(|e| e.to_string())?;
+            for k in w[0].keys.difference(&w[1].keys) { up.apply(ZoneUpdate::DeleteRecord(stored(uni, AR::Other(*k)))).await.map_err(|e| e.to_string())?; }
+            up.apply(ZoneUpdate::BeginBatchAdd(stored(uni, AR::Soa(w[1].soa)))).await.map_err(|e| e.to_string())?;
+            for k in w[1].keys.difference(&w[0].keys) { up.apply(ZoneUpdate::AddRecord(stored(uni, AR::Other(*k)))).await.map_err(|e| e.to_string())?; }
+            match up.apply(ZoneUpdate::Finished(stored(uni, AR::Soa(w[1].soa)))).await.map_err(|e| e.to_string())? {
+                Some(d) => diffs.push(Arc::new(d)),
+                None => return Err("no diff reported".to_string()),
+            }
+        }
+        // the request
+        let mb = MessageBuilder::new_vec();
+        let mut q = mb.question();
+        q.push((uni.apex.clone(), if mode == 0 { Rtype::AXFR } else { Rtype::IXFR })).unwrap();
+        let req_msg = if mode == 0 { q.into_message() } else {
+            let mut au = q.authority();
+            let (o, t, d) = uni.concrete(AR::Soa(chain[0].soa));
+            au.push((o, Class::IN, t, d)).unwrap();
+            au.into_message()
+        };
+        let req = Request::new("127.0.0.1:12345".parse().unwrap(), tokio::time::Instant::now(), req_msg,
+            TransportSpecificContext::NonUdp(NonUdpTransportContext::new(None)), ());
+        let provider = Provider { zone: szone.clone(), diffs: if mode == 2 { vec![] } else { diffs }, compat };
+        let sem = || Arc::new(tokio::sync::Semaphore::new(1));
+        let res = XfrMiddlewareSvc::<Vec<u8>, NextSvc, (), Provider>::preprocess(sem(), sem(), &req, provider).await;
+        let mut stream = match res { Ok(ControlFlow::Break(s)) => s, Ok(ControlFlow::Continue(())) => return Err("not handled".to_string()), Err(rc) => return Err(format!("rcode {}", rc)) };
+        let mut wire: Vec<Vec<u8>> = vec![];
+        loop {
+            match tokio::time::timeout(std::time::Duration::from_secs(10), stream.next()).await {
+                Err(_) => return Err("sender stream timed out".to_string()),
+                Ok(None) => break,
+                Ok(Some(Err(e))) => return Err(format!("service error {:?}", e)),
+                Ok(Some(Ok(cr))) => { if let Some(b) = cr.into_inner().0 { wire.push(b.as_message().as_slice().to_vec()); } }
+            }
+        }
+        Ok(wire)
+    }));
+    let wire = match built {
+        Ok(Ok(w)) => w,
+        Ok(Err(e)) => { cx.chk(false, "sender_failed", &case0, &e); return; }
+        Err(e) => { cx.chk(false, "panic_xfr", &case0, &format!("sender side panicked: {}", e)); return; }
+    };
+    let (sender_content, _) = walk_zone(uni, &szone);
+    cx.chk(sender_content == spec_content(uni, Some(new.soa), &new.keys), "sender_failed", &case0, "the sender zone is not at the last version of the chain");
+    // receiver
+    let words: Option<Vec<String>> = wire.iter().map(|w| words_of_wire(uni, w)).collect();
+    let run = run_interp(uni, &wire);
+    let upd_txt = if run.upds.is_empty() { "-".to_string() } else { run.upds.iter().map(|u| u.1.clone()).collect::<Vec<_>>().join(",") };
+    let case = match &words { Some(w) => format!("x {}", w.join(" ")), None => case0.clone() };
+    if words.is_some() { cx.out.case(&case, &format!("{} {}", upd_txt, st_str(&run.st)), true, "sender"); } else { cx.out.oracle_case(&case, true, "sender"); }
+    cx.sender_msgs += wire.len() as u64;
+    if wire.len() > 1 { cx.sender_multi += 1; }
+    cx.chk(run.st != St::Panic, "panic_xfr", &case, &label);
+    let rzone = build_zone(uni, Some(recv_start.soa), &recv_start.keys);
+    let ap = apply_updates(uni, cx.rt, &rzone, &run.upds);
+    let cls = if mode == 0 { "axfr_content_mismatch" } else { "ixfr_content_mismatch" };
+    let short = format!("{} msgs={} {}", case0, wire.len(), if case.len() > 600 { &case[..600] } else { &case });
+    cx.chk(run.st == St::Done && ap.result == "Ok" && ap.fin, cls, &short, &format!("sender-built stream not completed: {:?} / {}", run.st, ap.result));
+    cx.chk(ap.final_content == sender_content, cls, &short, &format!("receiver {:?} sender {:?}", ap.final_content, sender_content));
+    cx.chk(ap.changed_outside_commit.is_none(), "partial_version_visible", &short, "readers saw a change outside a commit");
+    // the packaging the sender chose must be one the receiver accepts
+    if mode != 0 && wire.len() > 1 {
+        let first_an = Message::from_octets(Bytes::from(wire[0].clone())).map(|m| m.header_counts().ancount()).unwrap_or(0);
+        cx.chk(first_an != 1, "sender_lone_soa_first_message", &short, "the sender put the SOA alone into the first message of a reply to an IXFR question");
+    }
+}
+
+// ---------------------------------------------------------------- TSIG signed transfers
+
+fn build_additional(uni: &Uni, m: &AMsg) -> AdditionalBuilder<BytesMut> {
+    let mut mb = MessageBuilder::from_target(BytesMut::new()).unwrap();
+    mb.header_mut().set_id(0x1234);
+    mb.header_mut().set_qr(true);
+    mb.header_mut().set_aa(true);
+    let mut q = mb.question();
+    if let Some(qt) = m.qtype { q.push((uni.apex.clone(), Rtype::from_int(qt), Class::IN)).unwrap(); }
+    let mut an = q.answer();
+    for r in &m.recs { let (o, t, d) = uni.concrete(*r); an.push((o, Class::IN, t, d)).unwrap(); }
+    an.additional()
+}
+
+/// The stream is signed message by message with ServerSequence and validated with
+/// ClientSequence before each message reaches the interpreter.  A valid stream must come
+/// through unchanged; with a message dropped, duplicated or moved the validation must refuse
+/// (TSIG chains every MAC to the previous one), before Finished reaches the updater.
+fn tsig_case(cx: &mut Ctx, r: &mut Rng, mode: u8, chain: &[Version], z0: &Version, cuts: &[usize], fault: &str) {
+    let uni = cx.uni;
+    let new = chain.last().unwrap().clone();
+    let recs = match mode { 1 => ixfr_records(chain), _ => axfr_records(&new, r) };
+    let mut chunks = chunks_of(&recs, cuts);
+    if mode != 0 && chunks.len() > 1 && chunks[0].len() == 1 { let c = chunks.remove(1); chunks[0].extend(c); }
+    let qtype = if mode == 0 { 252 } else { 251 };
+    let msgs = package(r, qtype, chunks);
+    let label = format!("tsig:{}:{}", ["axfr", "ixfr", "fallback"][mode as usize], fault);
+    let case = format!("{} :: {}", label, msgs.iter().map(|m| m.words()).collect::<Vec<_>>().join(" "));
+    cx.out.begin(&case);
+    cx.out.oracle_case(&case, true, "tsig");
+    let key = Key::new(Algorithm::Sha256, b"0123456789abcdef0123456789abcdef", KeyName::from_str("xfr-key.").unwrap(), None, None).unwrap();
+    let now = Time48::from_u64(1_700_000_000);
+    // request
+    let mut q = MessageBuilder::new_vec().question();
+    q.header_mut().set_id(0x1234);
+    q.push((uni.apex.clone(), Rtype::from_int(qtype), Class::IN)).unwrap();
+    let mut reqb = q.additional();
+    let Ok(mut cs) = ClientSequence::request(&key, &mut reqb, now) else { cx.chk(false, "tsig_stream_rejected", &case, "cannot sign the request"); return; };
+    let mut reqm = Message::from_octets(reqb.finish()).unwrap();
+    let Ok(Some(mut ss)) = ServerSequence::request(&&key, &mut reqm, now) else { cx.chk(false, "tsig_stream_rejected", &case, "server refuses the signed request"); return; };
+    let mut wire: Vec<Vec<u8>> = vec![];
+    for m in &msgs {
+        let mut ab = build_additional(uni, m);
+        if ss.answer(&mut ab, now).is_err() { cx.chk(false, "tsig_stream_rejected", &case, "cannot sign a response"); return; }
+        wire.push(ab.finish().to_vec());
+    }
+    let n = wire.len();
+    match fault {
+        "none" => {}
+        "drop_middle" => { if n < 3 { return; } let i = 1 + r.below(n as u64 - 2) as usize; wire.remove(i); }
+        "dup_middle" => { if n < 3 { return; } let i = 1 + r.below(n as u64 - 2) as usize; let w = wire[i].clone(); wire.insert(i, w); }
+        "swap" => { if n < 3 { return; } let i = 1 + r.below(n as u64 - 2) as usize; let j = if i + 1 < n - 1 { i + 1 } else { i - 1 }; if i == j || j == 0 { return; } wire.swap(i, j); }
+        _ => { if n < 2 { return; } wire.remove(n - 1); }   // drop_last
+    }
+    let plain = run_interp(uni, &msgs.iter().map(|m| build_msg(uni, m, 0)).collect::<Vec<_>>());
+    let mut refused = false;
+    let run = run_interp_with(uni, &wire, &mut |_, w| {
+        let mut m = Message::from_octets(w).ok()?;
+        match cs.answer(&mut m, now) { Ok(()) => Some(m.as_slice().to_vec()), Err(_) => { refused = true; None } }
+    });
+    let done_ok = cs.done().is_ok();
+    let zone = build_zone(uni, Some(z0.soa), &z0.keys);
+    let ap = apply_updates(uni, cx.rt, &zone, &run.upds);
+    cx.chk(run.st != St::Panic && ap.result != "Panic", "panic_xfr", &case, "");
+    let old_content = spec_content(uni, Some(z0.soa), &z0.keys);
+    if fault == "none" {
+        let same = run.upds.iter().map(|u| &u.1).eq(plain.upds.iter().map(|u| &u.1));
+        cx.chk(!refused && done_ok && run.st == St::Done && same, "tsig_stream_rejected", &case, &format!("status {:?} refused={} done_ok={}", run.st, refused, done_ok));
+        cx.chk(ap.final_content == spec_content(uni, Some(new.soa), &new.keys), if mode == 0 { "axfr_content_mismatch" } else { "ixfr_content_mismatch" }, &case, "signed stream");
+    } else if fault == "drop_last" {
+        cx.chk(run.st != St::Done, "fault_accepted_tsig_drop_last", &case, &format!("{:?}", run.st));
+    } else {
+        // the MAC chain is broken at the first message that is out of place
+        cx.chk(refused && run.st == St::Err(20), &format!("fault_accepted_tsig_{}", fault), &case, &format!("status {:?}", run.st));
+        if mode != 1 { cx.chk(ap.final_content == old_content, "partial_version_visible", &case, "readers do not see the old version"); }
+    }
+}
+
 const HDR_FAULTS: [&str; 12] = ["rcode", "tc", "qr0", "opcode", "ancount0", "nscount", "qd0_first", "qd2", "wrong_question", "no_question_type", "first_not_soa", "ancount_gt"];
 
 fn fault_case(cx: &mut Ctx, r: &mut Rng, mode: u8, chain: &[Version], cuts: &[usize], comp: u8, fault: &str) {
@@ -827,7 +1051,7 @@ fn main() {
     let mut r = Rng::new(a.seed);
     let uni = Uni::new();
     let rt = tokio::runtime::Builder::new_current_thread().enable_all().build().unwrap();
-    let mut cx = Ctx { fails: BTreeMap::new(), uni: &uni, rt: &rt, out: &mut out, ttl_kind: false, lone_soa: 0, undetected: BTreeMap::new(), diffs: 0 };
+    let mut cx = Ctx { sender_msgs: 0, sender_multi: 0, fails: BTreeMap::new(), uni: &uni, rt: &rt, out: &mut out, ttl_kind: false, lone_soa: 0, undetected: BTreeMap::new(), diffs: 0 };
     let ks = |v: &[u32]| -> BTreeSet<u32> { v.iter().cloned().collect() };
 
     // ---- corpus ----
@@ -932,6 +1156,58 @@ fn main() {
         }
     }
 
+    // ---- streams produced by the real sender (XfrMiddlewareSvc + batcher) ----
+    {
+        let va = Version { soa: 80, keys: ks(&[0, 1, 3, 5, 6, 9]) };
+        let vb = Version { soa: 82, keys: ks(&[0, 1, 3, 5, 7, 9, 11]) };
+        let vc = Version { soa: 86, keys: ks(&[0, 1, 5, 7, 11, 12, 15]) };
+        let other = Version { soa: 30, keys: ks(&[0, 2, 9, 14]) };
+        sender_case(&mut cx, &[va.clone()], 0, false, &other);
+        sender_case(&mut cx, &[va.clone()], 0, true, &other);          // one record per message
+        sender_case(&mut cx, &[va.clone(), vb.clone()], 1, false, &va);
+        sender_case(&mut cx, &[va.clone(), vb.clone(), vc.clone()], 1, false, &va);
+        sender_case(&mut cx, &[va.clone(), vb.clone()], 2, false, &va);
+        sender_case(&mut cx, &[va.clone(), vb.clone()], 2, true, &va);  // compat mode must not apply to IXFR questions
+        // big zones: several messages (64 KiB each)
+        let bulk = |from: u32, n: u32| -> BTreeSet<u32> { (0..n).map(|i| 1000 + from + i).chain([0u32, 1, 5]).collect() };
+        let ba = Version { soa: 90, keys: bulk(0, 420) };
+        let bb = Version { soa: 92, keys: bulk(300, 420) };
+        sender_case(&mut cx, &[ba.clone()], 0, false, &other);
+        sender_case(&mut cx, &[ba.clone(), bb.clone()], 1, false, &ba);   // multi-message IXFR
+        sender_case(&mut cx, &[ba.clone(), bb.clone()], 2, false, &ba);   // multi-message fallback
+        let n_s = (if a.thorough { 300 } else { 25 }) * a.scale;
+        for i in 0..n_s {
+            let mut fr = r.fork();
+            let base = Version { soa: 2 * (1 + fr.below(1000) as u32), keys: rand_keys(&mut fr, &uni, 10) };
+            let mut chain = vec![base.clone()];
+            for _ in 0..(1 + fr.below(3)) { let nx = mutate(&mut fr, &uni, chain.last().unwrap()); chain.push(nx); }
+            let mode = (i % 3) as u8;
+            let compat = fr.chance(1, 3);
+            let start = if mode == 0 { Version { soa: 2 * fr.below(500) as u32, keys: rand_keys(&mut fr, &uni, 8) } } else { base };
+            if mode == 0 { let last = chain.last().unwrap().clone(); sender_case(&mut cx, &[last], 0, compat, &start); }
+            else { sender_case(&mut cx, &chain, mode, compat, &start); }
+        }
+    }
+
+    // ---- TSIG signed streams ----
+    {
+        let n_t = (if a.thorough { 150 } else { 12 }) * a.scale;
+        for i in 0..n_t {
+            for fault in ["none", "drop_middle", "dup_middle", "swap", "drop_last"] {
+                let mut fr = r.fork();
+                let mode = (i % 3) as u8;
+                let mut base = Version { soa: 2 * (1 + fr.below(1000) as u32), keys: rand_keys(&mut fr, &uni, 8) };
+                base.keys.insert(0);
+                let mut chain = vec![base.clone()];
+                for _ in 0..(1 + fr.below(3)) { let nx = mutate(&mut fr, &uni, chain.last().unwrap()); chain.push(nx); }
+                if mode != 1 { let mut nw = chain.last().unwrap().clone(); nw.keys.insert(3); nw.keys.insert(9); nw.keys.insert(12); chain = vec![nw]; }
+                let nrec = match mode { 1 => ixfr_records(&chain).len(), _ => chain[0].keys.len() + 2 };
+                let cuts: Vec<usize> = if fault == "none" { rand_cuts(&mut fr, nrec) } else { (1..nrec).filter(|_| fr.chance(2, 3)).collect() };
+                tsig_case(&mut cx, &mut fr, mode, &chain, &base, &cuts, fault);
+            }
+        }
+    }
+
     // ---- IXFR difference sequences that do not chain ----
     {
         let wa = Version { soa: 60, keys: ks(&[0, 1, 5, 9]) };
@@ -1028,5 +1304,6 @@ fn main() {
     let lone = cx.lone_soa; let diffs = cx.diffs;
     let und = format!("{{{}}}", cx.undetected.iter().map(|(k, v)| format!("{}: {}", json_str(k), v)).collect::<Vec<_>>().join(","));
     let fc = format!("{{{}}}", cx.fails.iter().map(|(k, v)| format!("{}: {}", json_str(k), v)).collect::<Vec<_>>().join(","));
-    out.finish(&[("failures_by_class", fc), ("lone_soa_first_msg", lone.to_string()), ("undetected_by_design", und), ("diffs_checked", diffs.to_string())]);
+    let (smsgs, smulti) = (cx.sender_msgs, cx.sender_multi);
+    out.finish(&[("sender_messages", smsgs.to_string()), ("sender_multi_message_streams", smulti.to_string()), ("failures_by_class", fc), ("lone_soa_first_msg", lone.to_string()), ("undetected_by_design", und), ("diffs_checked", diffs.to_string())]);
 }
